@@ -12,6 +12,7 @@ from fractions import Fraction as Fr
 import common as C
 import exact as X
 import gen as G
+import pipeline as PL
 
 TOL = Fr(1, 2 ** 30)
 
@@ -121,9 +122,23 @@ def main():
         except Exception as exc:  # noqa
             return "raised", type(exc).__name__ + ": " + str(exc)[:80], None
 
+    # the Lean model of the whole pipeline on the same inputs (exact rationals, Newton iterates rounded to 64 bits)
+    drv = C.Driver()
+    midx = [PL.ask_all_intersections(drv, cfg, kw["n1"], kw["n2"]) if kind in ("sub-arcs", "collinear") else None for kind, kw in cases]
+    mreplies = drv.run()
+
+    def tie(kind, rc, st, pts, flag, mi):
+        if mi is None:
+            return
+        impl = ("ok", [(float(pts[0, k]), float(pts[1, k])) for k in range(pts.shape[1])], flag) if st == "ok" else \
+            ("exc", "NotImplementedError" if st == "refused" else pts.split(":")[0])
+        same, why = PL.same_result(impl, mreplies[mi], tol=Fr(1, 2 ** 26))
+        if not same:
+            res.mismatch("all_intersections", rc, str(impl)[:300], str(mreplies[mi])[:300], why)
+
     refusals = 0
     total_overlap_cases = 0
-    for kind, kw in cases:
+    for (kind, kw), mi_ in zip(cases, midx):
         jkw = {k: (C.jfr(v) if k in ("n1", "n2") else (str(v) if isinstance(v, Fr) else v)) for k, v in kw.items()}
         rc = {"kind": kind, "kw": jkw}
         n1, n2 = kw["n1"], kw["n2"]
@@ -134,6 +149,7 @@ def main():
             res.count((kind, str(jkw)), kind=kind, relation=rel, degree=kw["degree"], reversed=(c > d), elevated=kw["elevated"])
             res.sample({"kind": kind, "degree": kw["degree"], "a,b,c,d": [str(a), str(b), str(c), str(d)], "relation": rel})
             st, pts, flag = call(n1, n2)
+            tie(kind, rc, st, pts, flag, mi_)
             if rel != "disjoint":
                 total_overlap_cases += 1
             if st == "refused":
@@ -176,6 +192,7 @@ def main():
             rel = "overlap" if lo < hi else ("touch" if lo == hi else "disjoint")
             res.count((kind, str(jkw)), kind=kind, relation=rel)
             st, pts, flag = call(n1, n2)
+            tie(kind, rc, st, pts, flag, mi_)
             if st != "ok":
                 res.failure("collinear:raised", "collinear segments %s-%s / %s-%s: %s %s" % (p, q, r, s, st, pts), rc)
                 continue
